@@ -69,3 +69,24 @@ Theorem C10_json_enc : forall (ffmt : Z -> Z -> bytes) cfg evs e i j,
   SF.Core.ExtendedProofs.jrun_forget (json_run cfg ffmt e (flat_map expand evs) j).
 Proof. exact SF.Core.ExtendedProofs.json_run_expand_forget. Qed.
 Print Assumptions C10_json_enc.
+
+(* The unfolder (Gotype/Unfold.v), for every target type, previous content and event list:
+   an extended event is treated exactly as its expansion into basic events, and by-reference
+   or by-value delivery of any subset of strings and keys makes no difference. *)
+From SF Require Gotype.Types Gotype.Unfold Gotype.UnfoldProofs.
+Theorem C10_unfold_expand : forall t old evs,
+  SF.Gotype.Unfold.unfold_value t old (flat_map expand evs) = SF.Gotype.Unfold.unfold_value t old evs.
+Proof. exact SF.Gotype.UnfoldProofs.C10_unfold_expand. Qed.
+Print Assumptions C10_unfold_expand.
+
+Theorem C10_unfold_byref : forall t old evs evs',
+  Forall2 SF.Gotype.UnfoldProofs.ref_equiv evs evs' ->
+  SF.Gotype.Unfold.unfold_value t old evs = SF.Gotype.Unfold.unfold_value t old evs'.
+Proof. exact SF.Gotype.UnfoldProofs.C10_unfold_byref. Qed.
+Print Assumptions C10_unfold_byref.
+
+Theorem C10_unfold_tree : forall t old tr,
+  SF.Gotype.Unfold.unfold_value t old (flatten tr) =
+  SF.Gotype.Unfold.unfold_value t old (flatten (SF.Core.AdapterProofs.expand_tree tr)).
+Proof. exact SF.Gotype.UnfoldProofs.C10_unfold_tree. Qed.
+Print Assumptions C10_unfold_tree.
